@@ -1190,6 +1190,7 @@ type Alt struct {
 	ShortText uint16 // bit per field of shortTextFields: the text is cut to 0..3 characters, so the value moves into the 4-byte slot
 	ShortSeed uint64
 	ISOn      int  // >= 3: ISOSpeedRatings is written as SHORT x ISOn (count "Any" in Exif): the value no longer fits the slot
+	LongText  int  // > 0: the first out-of-line text field holds that many characters (beyond what the 4 KiB readers can look ahead to)
 	LeadCR2   bool // the padding after the TIFF header starts with Canon's CR2 magic ("CR", 2, 0), as in a CR2 file
 }
 
@@ -1202,7 +1203,7 @@ var shortTextFields = []string{"ModifyDate", "DateOrig", "DateDig", "Offset", "O
 // II and MM. (A RATIONAL with count 0 was tried as well and dropped: it has no value at all, the
 // library reads whatever follows, and no property says what that should be.)
 func DrawAltDegenerate(l *core.Lane, a *Alt) {
-	switch l.Intn(6) {
+	switch l.Intn(7) {
 	case 1:
 		a.ShortText = uint16(1 << uint(l.Intn(len(shortTextFields))))
 		a.ShortSeed = l.U64()
@@ -1213,6 +1214,8 @@ func DrawAltDegenerate(l *core.Lane, a *Alt) {
 		a.LeadCR2 = true
 	case 4:
 		a.ISOn = 3 + l.Intn(3)
+	case 5:
+		a.LongText = []int{5000, 9000, 16384, 17000}[l.Intn(4)] + l.Intn(8)
 	}
 }
 
@@ -1242,6 +1245,28 @@ func (ly *Layout) ApplyAlt(a Alt) {
 		return
 	}
 	ly.Garbage = a.Garbage
+	// the long text replaces one IFD0 text field, the same one however the record is split over
+	// blocks (CR3) - the first of Copyright, Software that is stored out of line (not Artist: the
+	// library fills an empty Artist from OwnerName, and whether a value it cannot read counts as
+	// empty before or after that depends on the order of the blocks - a question about unreadable
+	// values, not about containers)
+	longField := ""
+	if a.LongText > 0 {
+	pick:
+		for _, want := range []string{"Copyright", "Software"} {
+			for _, b := range ly.Blocks {
+				if b.dir == nil {
+					continue
+				}
+				for _, e := range b.dir.Entries {
+					if e.Field == want && e.Type == TASCII && e.Size() > 4 {
+						longField = want
+						break pick
+					}
+				}
+			}
+		}
+	}
 	if a.LeadCR2 {
 		if ly.LeadPad < 8 {
 			ly.LeadPad = 8
@@ -1254,6 +1279,15 @@ func (ly *Layout) ApplyAlt(a Alt) {
 		}
 		for _, e := range b.dir.Entries {
 			if e.Child != nil || e.Field == "" {
+				continue
+			}
+			if e.Type == TASCII && a.LongText > 0 && e.Size() > 4 && e.Field == longField {
+				txt := make([]byte, a.LongText)
+				for k := range txt {
+					txt[k] = "The quick brown fox jumps over the lazy dog. "[k%45]
+				}
+				e.Bytes = append(txt, 0)
+				e.Count = uint32(len(e.Bytes))
 				continue
 			}
 			if e.Type == TASCII && a.ShortText != 0 {
